@@ -313,6 +313,12 @@ func c09fGenSpec(r *vfRand, base *c09fSpec) c09fSpec {
 	np := r.Range(1, 3)
 	for i := 0; i < np; i++ {
 		p := c09fPolicy{Name: fmt.Sprintf("p%d", i), T: r.PickStr(c09fDur...), P: r.PickStr("", "1ms", "10ms", "1s", "1000us", "3ms"), L: r.PickInt(0, 1, 1, 2, 3)}
+		if r.Chance(1, 4) {
+			// explicit zero / explicit default spellings: "0s" must mean zero, "" the default
+			p.T = r.PickStr("0s", "0ms", "0s", "100ms")
+			p.L = r.PickInt(1, 1, 2)
+			p.P = r.PickStr("10ms", "1ms", "100ms", "")
+		}
 		c09fFill(&p)
 		s.Policies = append(s.Policies, p)
 	}
